@@ -123,3 +123,74 @@ package submission
 //@ requires g != nil && submissions != nil && ctx != nil
 //@ at race assert [races-this-group-with-the-shared-state-and-submitter] race.group == g && race.state == submissions && race.submitter == submitter && race.chain == chain && race.asPreChain == asPreChain
 //@ at snd assert [reports-that-races-verdict] snd.x == race.res
+
+// The distributor's wiring (C17): which logs are offered to the policy, and what is handed to the
+// submission race. The log list offered is always `usableLl.Compatible(leaf, root-or-nil, roots)`:
+// the temporal filter always applies; the root filter applies when the chain could be rooted (or root
+// checking is not disabled). A chain that cannot be rooted while root data is complete is refused.
+//@ func (*Distributor).addSomeChain$1
+//@ props C17
+//@ may panic
+//@ modifies nothing
+//@ frame-trusted reads the distributor under its read lock; builds new lists
+//@ site parseRawChain#1 as pr
+//@ site Compatible#1 as c0
+//@ site ValidateChain#1 as vc
+//@ site Compatible#2 as c1
+//@ site Compatible#3 as c2
+//@ requires d != nil && d.usableLl != nil && len(rawChain) >= 1 && (!d.rootCompatibilityCheckDisabled ==> d.rootPool != nil)
+//@ ensures [a-list-comes-with-a-parsed-chain-whose-leaf-is-there] result2 == nil ==> len(result1) >= 1 && result1[0] != nil
+//@ ensures [an-unparsable-chain-is-refused] pr.res1 != nil ==> result2 != nil && !c0.called && !c1.called && !c2.called
+//@ ensures [with-complete-root-data-an-unrootable-chain-is-refused] vc.called && vc.res1 != nil && old(d.rootDataFull) ==> result2 != nil && !c2.called
+//@ ensures [every-list-offered-went-through-the-compatibility-filter] result2 == nil ==> (c0.called && result0 == c0.res) || (c1.called && result0 == c1.res) || (c2.called && result0 == c2.res)
+//@ at c0 assert [temporal-filter-on-the-leaf-when-root-checking-is-disabled] c0.ll == d.usableLl && c0.cert == pr.res0[0] && c0.certRoot == nil && d.rootCompatibilityCheckDisabled
+//@ at vc assert [the-submitted-chain-is-validated-against-the-known-roots] vc.rawChain == rawChain
+//@ at c1 assert [temporal-and-root-filter-on-the-validated-path] c1.ll == d.usableLl && vc.res1 == nil && c1.cert == vc.res0[0] && c1.certRoot == vc.res0[len(vc.res0) - 1] && c1.roots == d.logRoots
+//@ at c2 assert [temporal-filter-only-while-root-data-is-incomplete] c2.ll == d.usableLl && c2.cert == pr.res0[0] && c2.certRoot == nil && vc.res1 != nil && !d.rootDataFull
+
+//@ func (*Distributor).addSomeChain
+//@ props C17
+//@ may panic
+//@ modifies nothing
+//@ frame-trusted builds the request; the submission race writes only its own state
+//@ site addSomeChain$1#1 as cl
+//@ site IsPrecertificate#1 as ip
+//@ site LogsByGroup#1 as lbg
+//@ site GetSCTs#1 as gs
+//@ requires ctx != nil && d != nil && d.usableLl != nil && d.policy != nil && d.pendingLogsPolicy != nil && (!d.rootCompatibilityCheckDisabled ==> d.rootPool != nil)
+//@ ensures [an-empty-chain-is-refused] len(rawChain) == 0 ==> result1 != nil && !cl.called
+//@ ensures [no-compatible-list-no-submission] cl.called && cl.res2 != nil ==> result1 != nil && !gs.called
+//@ ensures [the-leaf-kind-must-match-the-endpoint] ip.called && (ip.res1 != nil || ip.res0 != asPreChain) ==> result1 != nil && !gs.called
+//@ ensures [a-policy-that-cannot-be-met-is-refused-up-front] lbg.called && lbg.res1 != nil ==> result1 != nil && !gs.called
+//@ ensures [otherwise-the-verdict-of-the-submission-race] gs.called ==> result0 == gs.res0 && result1 == gs.res1
+//@ at ip assert [the-leaf-of-the-parsed-chain] ip.cert == cl.res1[0]
+//@ at lbg assert [policy-groups-are-built-from-the-compatible-logs-only] lbg.cert == cl.res1[0] && lbg.approved == &compatibleLogs
+//@ at gs assert [the-race-is-run-over-exactly-those-groups-with-the-whole-chain] gs.groups == lbg.res0 && gs.asPreChain == asPreChain && typeof(gs.submitter) == *Distributor && as(gs.submitter, *Distributor) == d && len(gs.chain) == len(cl.res1)
+
+//@ func parseRawChain
+//@ props C17
+//@ arith int
+//@ may panic
+//@ modifies nothing
+//@ frame-trusted builds a new slice
+//@ site x509.ParseCertificate#1 as pc
+//@ site x509.IsFatal#1 as isf
+//@ loop 1 invariant len(parsedChain) == rangeindex + 1 && (forall j int :: 0 <= j && j <= rangeindex ==> parsedChain[j] != nil)
+//@ ensures [one-parsed-certificate-per-element-or-an-error] result1 == nil ==> len(result0) == len(rawChain) && (forall j int :: 0 <= j && j < len(result0) ==> result0[j] != nil)
+//@ ensures [a-fatal-parse-error-refuses-the-chain] isf.called && isf.res ==> result1 != nil && len(result0) == 0
+//@ at isf assert [the-parsers-own-error-is-classified] isf.err == pc.res1
+
+// The sentinel errors the distributor returns are errors (package initialisation, never reassigned).
+//@ init-establishes ErrDistributorUnableToProcessEmptyChain != nil && ErrDistributorNotEnoughCompatibleLogs != nil
+
+// The background submission to pending logs: the same chain, the pending-log groups only; its
+// outcome is logged, never returned.
+//@ func (*Distributor).addSomeChain$2
+//@ props C17
+//@ may panic
+//@ modifies nothing
+//@ frame-trusted runs its own submission race; writes nothing of the enclosing call
+//@ site LogsByGroup#1 as lbg
+//@ site GetSCTs#1 as gs
+//@ requires ctx != nil && d != nil && d.pendingLogsPolicy != nil
+//@ at gs assert [pending-logs-get-the-same-chain-under-their-own-groups] gs.groups == lbg.res0 && lbg.res1 == nil && gs.asPreChain == asPreChain
